@@ -38,7 +38,7 @@ def plan(tier, seed):
 def gen_matrix(rng):
     m, n = rng.randint(1, 6), rng.randint(1, 6)
     A = np.array([[rng.uniform(-2, 2) for _ in range(n)] for _ in range(m)])
-    kind = rng.choice(["plain", "plain", "rankdef", "scaled-rows", "scaled-cols", "zero", "ints"])
+    kind = rng.choice(["plain", "plain", "rankdef", "scaled-rows", "scaled-cols", "zero", "ints", "scaled-all", "scaled-all-rankdef"])
     if kind == "rankdef" and min(m, n) >= 2:
         if rng.random() < 0.5:
             A[:, -1] = A[:, 0] * rng.uniform(-2, 2)
@@ -48,6 +48,11 @@ def gen_matrix(rng):
         A = A * np.array([10.0 ** rng.randint(-6, 6) for _ in range(m)])[:, None]
     elif kind == "scaled-cols":
         A = A * np.array([10.0 ** rng.randint(-6, 6) for _ in range(n)])[None, :]
+    elif kind in ("scaled-all", "scaled-all-rankdef"):
+        # the whole system in very small or very large units: which singular values are "kept" is relative to the largest
+        if kind.endswith("rankdef") and min(m, n) >= 2:
+            A[:, -1] = A[:, 0] * rng.uniform(-2, 2)
+        A = A * 10.0 ** rng.choice([-30, -24, -20, -18, -17, -16, -15, -12, 12, 16, 20, 30])
     elif kind == "zero":
         A = A * 0.0
     elif kind == "ints":
